@@ -70,19 +70,6 @@ example : ∀ k ∈ [Key.name ['a', ' ', 'b'], Key.idx (-3), Key.name [], Key.na
 
 /-! ### navigation -/
 
-theorem listGet_nonneg (xs : List α) (i : Int) (hi : 0 ≤ i) : listGet xs i = xs[i.toNat]? := by
-  have h0 : ¬ i < 0 := by omega
-  by_cases hlt : i < (xs.length : Int)
-  · have hc : ¬ (i < 0 ∨ i ≥ (xs.length : Int)) := by omega
-    simp [listGet, h0, hc]
-    omega
-  · have hc : (i < 0 ∨ i ≥ (xs.length : Int)) := by omega
-    have hn : xs[i.toNat]? = none := List.getElem?_eq_none (by omega)
-    simp [listGet, h0, hc, hn]
-
-theorem getItem_ok_container (v : Json) (k : Key) (w : Json) (h : getItem v k = .ok w) : v.isContainer = true := by
-  cases v <;> cases k <;> simp [getItem] at h <;> rfl
-
 /-- **`_traverse` agrees with Python navigation** wherever Python navigation has a result (all documents, all paths; negative list
     indexes included; independent of whether TypeError is caught) -/
 theorem C29_traverse (cte : Bool) (doc : Json) (keys : List Key) (v : Json) (h : pyNavigate doc keys = .ok v) :
@@ -156,9 +143,6 @@ theorem C29_query_toplevel_array_fixed (xs : List Json) (pk : Option (List Key))
   simp only [jsonQueryFallback, pyJsonExtract2, h0, h, C29_unwrap]
 
 /-! ### truthiness: `expr NOT IN (literals)` on the dumped text vs `bool(v)` -/
-
-theorem contains_iff_mem (L : List Text) (t : Text) : L.contains t = true ↔ t ∈ L := by
-  simp
 
 /-- **Truthiness, guarded.** For every literal list between the six base literals and base + float zeros, and every value that is
     not a float zero: `JSON_NONZERO` on the dumped text is Python truthiness. -/
@@ -283,13 +267,13 @@ theorem C29_index_forms_agree (f p : Bool) (v len : Int) : indexConst f p v len 
   cases f <;> cases p <;> simp [indexConst, indexExpr] <;> split <;> omega
 
 /-- on SQLite (`from_one = False`) a negative index is sent as `len + index`, a non-negative one unchanged -/
-theorem C29_index_sqlite (p : Bool) (v len : Int) : indexConst false p v len = if v ≥ 0 then v else len + v := by
-  simp [indexConst]; split <;> omega
+theorem C29_index_sqlite (p : Bool) (v len : Int) : indexConst false p v len = if v ≥ 0 then v else len + v :=
+  index_sqlite p v len
 
 /-- **`x.arr[i]`** on SQLite is Python's `arr[i]` for every list and every index `i ≥ -len(arr)` (result, or NULL where Python
     raises IndexError because `i ≥ len`) -/
 theorem C29_array_index (xs : List α) (i : Int) (h : -(xs.length : Int) ≤ i) : sqliteArrayIndex xs i = listGet xs i := by
-  simp only [sqliteArrayIndex, pyArrayIndex, C29_index_sqlite]
+  simp only [sqliteArrayIndex, pyArrayIndex, index_sqlite]
   by_cases hi : i ≥ 0
   · simp [hi]
   · simp only [hi, if_false]
@@ -303,24 +287,6 @@ theorem C29_array_index (xs : List α) (i : Int) (h : -(xs.length : Int) ≤ i) 
 /-- below `-len` Python raises IndexError, while SQLite is handed a still-negative index that `py_array_index` counts from the end again -/
 theorem C29_array_index_wraps : sqliteArrayIndex [1, 2, 3] (-5) = some 2 ∧ listGet [1, 2, 3] (-5) = (none : Option Int) := by
   decide
-
-theorem adj_sqlite (p : Bool) (n v : Int) (hn : 0 ≤ n) (h : -n ≤ v) : adjIdx n (indexConst false p v n) = adjIdx n v := by
-  rw [C29_index_sqlite]; unfold adjIdx; split <;> split <;> split <;> (try split) <;> omega
-
-theorem adj_clamp (p : Bool) (n v : Int) (hn : 0 ≤ n) : adjIdx n (max (indexConst false p v n) 0) = adjIdx n v := by
-  rw [C29_index_sqlite]; unfold adjIdx; split <;> split <;> split <;> (try split) <;> omega
-
-/-- lower / upper bound of a Python slice -/
-def loOf (n : Int) : Option Int → Int | none => 0 | some i => adjIdx n i
-def hiOf (n : Int) : Option Int → Int | none => n | some i => adjIdx n i
-
-theorem pySlice_eq (xs : List α) (a b : Option Int) :
-    pySlice xs a b = (xs.drop (loOf xs.length a).toNat).take (hiOf xs.length b - loOf xs.length a).toNat := by
-  cases a <;> cases b <;> rfl
-
-theorem pySlice_congr (xs : List α) (a b a' b' : Option Int)
-    (ha : loOf xs.length a' = loOf xs.length a) (hb : hiOf xs.length b' = hiOf xs.length b) : pySlice xs a' b' = pySlice xs a b := by
-  rw [pySlice_eq, pySlice_eq, ha, hb]
 
 /-- **`x.arr[a:b]`, guarded.**  On SQLite the slice is Python's `arr[a:b]` for every list and all bounds `≥ -len(arr)` (omitted bounds included) -/
 theorem C29_array_slice_partial (clamp : Bool) (xs : List α) (a b : Option Int)
@@ -368,5 +334,32 @@ theorem C29_array_slice_full_false : ¬ C29_array_slice_full := by
 
 example : (∀ v, (some (-3) : Option Int) = some v → -(([1, 2, 3] : List Int).length : Int) ≤ v) := by
   intro v h; cases h; decide
+
+/-! ### PostgreSQL subscripts (backend model: 1-based, outside the bounds → NULL; no server in the sandbox) -/
+
+/-- **PostgreSQL `x.arr[i]`** (1-based subscript computed by `_index(from_one=True)`) is Python's `arr[i]` for every index; NULL where Python raises -/
+theorem C29_pg_index (xs : List α) (i : Int) : pgIndex xs i = listGet xs i := by
+  simp only [pgIndex, pgArrayIndex, index_pg, if_true]
+  by_cases hi : i ≥ 0
+  · rw [listGet_nonneg xs i hi]
+    simp only [hi, if_true]
+    by_cases hlt : i < (xs.length : Int)
+    · have c1 : ¬ (i + 1 < 1 ∨ i + 1 > (xs.length : Int)) := by omega
+      simp only [c1, if_false]; congr 1; omega
+    · have c1 : (i + 1 < 1 ∨ i + 1 > (xs.length : Int)) := by omega
+      simp only [c1, if_true]; exact (List.getElem?_eq_none (by omega)).symm
+  · have h0 : i < 0 := by omega
+    simp only [hi, if_false]
+    by_cases hlt : -(xs.length : Int) ≤ i
+    · have c1 : ¬ ((xs.length : Int) + i + 1 < 1 ∨ (xs.length : Int) + i + 1 > (xs.length : Int)) := by omega
+      have c2 : ¬ (i + (xs.length : Int) < 0 ∨ i + (xs.length : Int) ≥ (xs.length : Int)) := by omega
+      simp only [listGet, h0, c1, c2, if_true, if_false]; congr 1; omega
+    · have c1 : ((xs.length : Int) + i + 1 < 1 ∨ (xs.length : Int) + i + 1 > (xs.length : Int)) := by omega
+      have c2 : (i + (xs.length : Int) < 0 ∨ i + (xs.length : Int) ≥ (xs.length : Int)) := by omega
+      simp only [listGet, h0, c1, c2, if_true]
+
+/-- not proved here (kept as a statement): with PostgreSQL's slice semantics (`arr[l:u]` 1-based, inclusive, intersected with the
+    bounds) the emitted slice is Python's for all bounds.  Checked by the engine on the grid through the driver only. -/
+def C29_pg_slice_full : Prop := ∀ (xs : List Int) (a b : Option Int), pgSlice xs a b = pySlice xs a b
 
 end PonyVerif.Props.C29
